@@ -14,6 +14,7 @@ func init() {
 		c01R3(c, "C01.R3")
 		c01R4(c, "C01.R4")
 		c01R5(c, "C01.R5")
+		c01R6(c, "C01.R6")
 		// imported rule groups: sequencing under the write mutex, reassembly, record framing
 		c.importing = "C13"
 		c13R1(c, "C13.R1")
